@@ -16,7 +16,9 @@ def gen_affine(rnd, stratum=None):
     split without halo (subsampling); S4 multi-level split with halo;
     S5 coefficient 3/5/6 looped over the input rank."""
     if stratum is None:
-        stratum = rnd.choice(["S1", "S1", "S2", "S2", "S3", "S6", "S8", "S9", "S10", "S11"])
+        stratum = rnd.choice(["S1", "S1", "S2", "S2", "S3", "S6", "S8", "S9", "S10", "S11", "S12"])
+    if stratum == "S12":
+        return gen_affine_2out(rnd)
     if stratum == "S11":
         return gen_affine3(rnd)
     if stratum == "S9":
@@ -320,3 +322,40 @@ def gen_affine3(rnd):
     spec = Spec(decl, [e], partitioning=({"O": parts} if parts else None), loop_order={"O": lo},
                 tags=tags)
     return spec, ext, {"stratum": "S11", "tags": tags, "dims": []}
+
+
+def gen_affine_2out(rnd):
+    """Stratum S12: TWO output variables in one access,  O[p, q] = I[a*p + q + b*s] * F[s]
+    (a sliding window over a sliding window); optionally Q is split with W following it - the
+    follower's halo then has to cover the other output variable too."""
+    a = rnd.choice([1, 1, 2])
+    b = rnd.choice([1, 1, 2])
+    P, Q, S = rnd.randint(2, 4), rnd.randint(3, 8), rnd.randint(1, 3)
+    ext = {"P": P, "Q": Q, "S": S, "W": a * (P - 1) + (Q - 1) + b * (S - 1) + 1}
+    decl = {"I": ["W"], "F": ["S"], "O": ["P", "Q"]}
+    idx = [(a, "p"), (1, "q"), (b, "s")]
+    if rnd.random() < 0.4:
+        rnd.shuffle(idx)
+    facs = [Acc("I", [idx]), Acc("F", [[(1, "s")]])]
+    rnd.shuffle(facs)
+    out_idx = [[(1, "p")], [(1, "q")]]
+    if rnd.random() < 0.4:
+        decl["O"] = ["Q", "P"]
+        out_idx.reverse()
+    e = Einsum(Acc("O", out_idx), [Term("times", facs)])
+    tags = ["S12", "two-output-variables-in-one-access"]
+    parts, syms = None, {}
+    if rnd.random() < 0.65:
+        which = rnd.choice(["Q", "Q", "P"]) if a == 1 else "Q"
+        # symbolic size: a literal one runs into KF-5 when the level-0 loop walks the output alone
+        syms[which + "0"] = rnd.randint(2, 4)
+        parts = {which: ["uniform_shape(%s0)" % which], "W": ["follow(%s)" % which]}
+        other = "P" if which == "Q" else "Q"
+        groups = [[which + "1", which + "0"], [other], ["S"]]
+        tags += ["partitioned", "halo"]
+    else:
+        groups = [["P"], ["Q"], ["S"]]
+    lo = interleave(rnd, groups, True)
+    spec = Spec(decl, [e], partitioning=({"O": parts} if parts else None), loop_order={"O": lo},
+                syms=syms, tags=tags)
+    return spec, ext, {"stratum": "S12", "tags": tags, "dims": []}
